@@ -5,7 +5,8 @@ from props._geo import *  # noqa
 
 LEAN_MODULES = ['A5.Props.C14']
 LEVEL = 'other'
-EXPLANATION = ('PROVED (Lean, exact arithmetic): the planar half of the map is affine in the barycentric weights and multiplies the signed area of EVERY triangle by one constant (the face triangle\'s determinant), independent of position. ' + TIE +
+EXPLANATION = ("NEW: `affine_scales_polygon`: an affine map multiplies the shoelace area of EVERY closed polygon (any number of vertices, convex or not) by its determinant - the 'arbitrary regions, not only cells' half of the planar stage. "
+               'PROVED (Lean, exact arithmetic): the planar half of the map is affine in the barycentric weights and multiplies the signed area of EVERY triangle by one constant (the face triangle\'s determinant), independent of position. ' + TIE +
                'ASSUMED (numeric, swept every run with an independent spherical area formula): the barycentric weights are proportional to spherical sub-triangle areas, so that any planar polygon maps to a spherical region of area = planar area x (sphere/12)/(face pentagon area) to 1e-6, across seams and face edges. '
                'This property is in itself a numeric hypothesis of the development.')
 RULE = 'triangles and quads in the face plane of all 12 faces, sizes 1e-4..0.5 face widths, inside the pentagon and straddling its edges into the mirror triangles; edges densified to 512 segments each'
